@@ -15,7 +15,7 @@ Definition wf_single (sy : syntax) (p : str) : bool :=
   | c :: _ => negb (is_ws c) && negb (has_rawstring sy && N.eqb c c_r)
   end.
 Definition wf_multi (c : mlc) : bool :=
-  match ml_start c with [] => true | x :: _ => negb (is_ws x) end.
+  match ml_start c with [] => false | x :: _ => negb (is_ws x) end.
 Definition wf_syntax (sy : syntax) : bool :=
   forallb (wf_single sy) (single sy) && forallb wf_multi (multi sy).
 
